@@ -117,8 +117,6 @@ func (manager *TaskManager) Create(pip pipservices.Pip) (result pipservices.Task
 		childScope.Close()
 		return nil, err
 	}
-	// add oLogger to oBroadcast
-	manager.tasks[taskname] = task
 	if err = manager.validWaitList([]string{taskname}, task, 100); err != nil {
 		childScope.Close()
 		return nil, err
@@ -127,6 +125,9 @@ func (manager *TaskManager) Create(pip pipservices.Pip) (result pipservices.Task
 		childScope.Close()
 		return nil, err
 	}
+	// only an accepted task is registered: a refused one is never run, so nobody would
+	// release its completion latch and Wait would block on it forever
+	manager.tasks[taskname] = task
 	manager.wg.Add(1)
 	return task, nil
 }
